@@ -752,6 +752,25 @@ V("c17c-congruence-no-transpose", "C17", {"rule": "C17c", "contains": "covarianc
   (FGSTEPS, "    state.covariance_matrix = SO @ state.covariance_matrix @ SO.T\n", "    state.covariance_matrix = SO @ state.covariance_matrix @ SO\n"))
 V("c17c-right-assoc", "C17", "silent",
   (FGSTEPS, "    state.covariance_matrix = SO @ state.covariance_matrix @ SO.T\n", "    state.covariance_matrix = SO @ (state.covariance_matrix @ SO.T)\n"))
+FFS = "piquasso/fermionic/fock/simulation_steps.py"
+NPCONN = "piquasso/_simulators/connectors/numpy_/connections.py"
+GENCONN = "piquasso/_simulators/connectors/connections.py"
+V("c17e-squeezing2-jw-sign", "C17", {"rule": "C17e", "contains": "squeezing2"},
+  (FFS, "            if j < size:\n                state._state_vector = connector.assign(\n                    state._state_vector, ((i, j),), U @ state._state_vector[(i, j),]\n                )",
+   "            if j < size:\n                sign = (-1) ** int(index[: modes[0]].sum())\n                signed_U = U * np.array([[1, sign], [sign, 1]])\n                state._state_vector = connector.assign(\n                    state._state_vector, ((i, j),), signed_U @ state._state_vector[(i, j),]\n                )"))
+V("c17e-isingxx-index-dependent-phase", "C17", {"rule": "C17e", "contains": "ising_XX"},
+  (FFS, "        final = cos_phi * initial + i_sin_phi * np.flip(initial)", "        final = cos_phi * initial + (i_sin_phi * (-1) ** int(index[0] % 2)) * np.flip(initial)"))
+V("c17e-coefficient-local-in-loop", "C17", "silent",
+  (FFS, "                state._state_vector = connector.assign(\n                    state._state_vector, i, U[0, 0] * state._state_vector[i]\n                )",
+   "                u00 = U[0, 0]\n                state._state_vector = connector.assign(\n                    state._state_vector, i, u00 * state._state_vector[i]\n                )"))
+V("c17f-full-subspace-identity", "C17", {"rule": "C17f", "contains": "numpy_"},
+  (NPCONN, "    for n in range(2, cutoff):\n        laplace_indices, deleted_indices = (",
+   "    for n in range(2, cutoff):\n        if n == d:\n            subspace_representations.append(np.array([[1.0]], dtype=matrix.dtype))\n            continue\n        laplace_indices, deleted_indices = (", 1))
+V("c17f-recurrence-drops-previous", "C17", {"rule": "C17f", "contains": "connections"},
+  (GENCONN, "                        * previous_representation[deleted_row_idx, deleted_col_idx]\n                    )\n\n                representation = connector.assign(",
+   "                    )\n\n                representation = connector.assign(", 1))
+V("c17f-one-particle-via-local", "C17", "silent",
+  (NPCONN, "    subspace_representations.append(matrix)\n", "    one_particle = matrix\n    subspace_representations.append(one_particle)\n", 1))
 V("c17d-amplitude-map-unchecked", "C17", {"rule": "C17d", "contains": "state_vector"},
   (FFSTEPS, "                if len(occ_numbers) != state._d or not all_zero_or_one(occ_numbers):", "                if len(occ_numbers) != state._d:"))
 V("c17d-gaussian-unchecked", "C17", {"rule": "C17d", "contains": "state_vector"},
